@@ -63,7 +63,7 @@ type vfMsgSpec struct {
 }
 
 type vfStep struct {
-	Op   string `json:"op"` // send | await | release | waitOutcomes | moveLeader | brokerDown | brokerUp | sleep | metaFail
+	Op   string `json:"op"` // send | await | release | waitOutcomes | moveLeader | leaderless | brokerDown | brokerUp | sleep | hookBlock | hookWait | hookRelease
 	A    int    `json:"a,omitempty"`
 	B    int    `json:"b,omitempty"`
 	Key  string `json:"key,omitempty"`
@@ -534,6 +534,7 @@ func vfExecProd(c *vfProdCase) *vfProdRun {
 	}()
 
 	var stepProgress int64
+	var hookBlocks map[string]*vfHookBlock
 	stuck := false
 	for _, st := range c.Script {
 		if stuck || run.stop.stopped() {
@@ -592,6 +593,27 @@ func vfExecProd(c *vfProdCase) *vfProdRun {
 			parts := strings.Split(st.Key, "/")
 			pn, _ := strconv.Atoi(parts[1])
 			run.sim.moveLeader(parts[0], int32(pn), -1)
+		case "hookBlock":
+			// directed window: the A-th hit of hook point Key blocks (for at most B ms) until "hookRelease"
+			if hs, ok := vfHooks.Load().(*vfHookState); ok && hs != nil {
+				if hookBlocks == nil {
+					hookBlocks = map[string]*vfHookBlock{}
+				}
+				hookBlocks[st.Key] = hs.blockAt(st.Key, st.A, time.Duration(st.B)*time.Millisecond)
+			}
+		case "hookWait":
+			// scheduling aid, not an oracle: go on when the point was reached, or after B ms if it never is
+			if b := hookBlocks[st.Key]; b != nil {
+				select {
+				case <-b.reached:
+				case <-time.After(time.Duration(st.B) * time.Millisecond):
+				case <-run.stop.ch:
+				}
+			}
+		case "hookRelease":
+			if b := hookBlocks[st.Key]; b != nil {
+				b.release()
+			}
 		case "brokerDown":
 			run.sim.setBrokerUp(int32(st.A), false)
 		case "brokerUp":
@@ -599,6 +621,9 @@ func vfExecProd(c *vfProdCase) *vfProdRun {
 		case "sleep":
 			time.Sleep(time.Duration(st.A) * time.Microsecond)
 		}
+	}
+	for _, b := range hookBlocks {
+		b.release()
 	}
 	run.eventsEnd = vfEventCount(run.sim)
 	run.closedEarly = run.stop.stopped()
